@@ -133,6 +133,15 @@ where
 
                     self.changes.push(change);
 
+                    // Rows of a version we merged from another node can share a sequence
+                    // number: cr-sqlite records an implicit sentinel row next to the column
+                    // change that resurrected the row.  Never separate them, and do not stop
+                    // at `last_seq` while more rows carry it.
+                    if matches!(self.iter.peek(), Some(Ok(next)) if next.seq == self.last_pushed_seq)
+                    {
+                        continue;
+                    }
+
                     if self.last_pushed_seq == self.last_seq {
                         // this was the last seq! break early
                         break;
